@@ -7,7 +7,9 @@ package fstree
 // Workload: seeded operation sequences (single Put, concurrent Puts that share one
 // combined file, PutBatch, Delete, hand-seeded zstd files and hand-built combined files
 // with optionally compressed members) over ~20 addresses per configuration, plus combined
-// files whose member boundaries are aimed at the borders of the readers' windows (opAligned).
+// files whose member boundaries are aimed at the borders of the readers' windows (opAligned)
+// and bursts of the same operations over a few "small" addresses whose on-disk length is
+// aimed at and below the length of the combined prefix (opSmall).
 // Oracle: a Go map (address -> bytes last stored), written from the property statement.
 // Every read API must return exactly the model bytes (or the parts of them the API
 // documents) for a stored address and not-found for an absent one; every iteration must
@@ -61,6 +63,7 @@ type vf10Item struct {
 	addr     oid.Address
 	variants [2][]byte
 	hdrLen   [2]int // length of the non-payload prefix (id, signature, header fields)
+	small    bool   // member of the small-object part of the universe (genSmall)
 }
 
 type vf10Step struct {
@@ -78,6 +81,10 @@ type vf10Case struct {
 	fs    *FSTree
 	rng   *rand.Rand
 	arng  *rand.Rand // stream of the border-aligned combined files (opAligned)
+	srng  *rand.Rand // stream of the small-object bursts (genSmall, opSmall)
+	small []*vf10Item
+	bias  []*vf10Item // when set, random items are mostly taken from here
+	vseed uint64      // seed of the per-verification streams
 	items []*vf10Item
 	model map[oid.Address][]byte
 	byAdr map[oid.Address]*vf10Item
@@ -216,6 +223,133 @@ func (c *vf10Case) genUniverse() {
 			it.variants[1], it.hdrLen[1] = vf10Build(c.rng, it.addr, 1, len(it.variants[0])+17)
 		}
 		c.items = append(c.items, it)
+		c.byAdr[it.addr] = it
+	}
+}
+
+// ---- small objects ---------------------------------------------------------------------
+//
+// The readers branch on the number of bytes a file (or a combined member) occupies ON DISK:
+// a file shorter than the 38-byte combined prefix cannot be told from a combined file by
+// its first prefix-length bytes, a piece shorter than 4 bytes cannot carry the zstd magic.
+// Every object of the main universe carries a random 32-byte ID, so its encoding has at
+// least 36 bytes and its zstd frame at least ~49: files below the prefix length occur only
+// as 36/37-byte plain files there, and never compressed.  The small part of the universe
+// holds objects without ID (the address is only in the path) whose raw length, or whose
+// compressed length, is aimed at 3..37, 38, 39 and a little more, plus highly compressible
+// objects whose raw form is long (beyond one or two reader buffers) while the zstd frame
+// is shorter than the prefix.
+
+// vf10SmallObj builds an object without signature: kind 0 payload only, 1 header with the
+// payload length, 2 header with type, payload length and an attribute, 3 ID only + payload.
+func vf10SmallObj(addr oid.Address, kind int, payload []byte) []byte {
+	obj := new(object.Object)
+	switch kind {
+	case 1:
+		obj.SetPayloadSize(uint64(len(payload)))
+	case 2:
+		obj.SetPayloadSize(uint64(len(payload)))
+		obj.SetType(object.TypeTombstone)
+		verifkit.AddAttr(obj, "k", "v")
+	case 3:
+		obj.SetID(addr.Object())
+	}
+	if len(payload) > 0 {
+		obj.SetPayload(payload)
+	}
+	return obj.Marshal()
+}
+
+// vf10BuildSmall returns the bytes of one small object and the name of its class.
+func vf10BuildSmall(rng *rand.Rand, addr oid.Address) ([]byte, string) {
+	random := func(n int) []byte { return verifkit.RandBytes(rng, n) }
+	zeros := func(n int) []byte { return make([]byte, n) }
+	rawLen := func(b []byte) int { return len(b) }
+	zstdLen := func(b []byte) int { return len(vf10Enc.EncodeAll(b, nil)) }
+	// aim adjusts the payload length until measure(encoding) == want (or as close as it gets)
+	aim := func(kind int, tex func(int) []byte, measure func([]byte) int, want int) []byte {
+		p := max(want-16, 1)
+		var b []byte
+		for range 10 {
+			b = vf10SmallObj(addr, kind, tex(p))
+			d := want - measure(b)
+			if d == 0 {
+				break
+			}
+			p = max(p+d, 0)
+		}
+		return b
+	}
+	tex := random
+	if rng.IntN(3) == 0 {
+		tex = zeros
+	}
+	var b []byte
+	var class string
+	switch k := rng.IntN(100); {
+	case k < 28: // raw encoding shorter than the combined prefix
+		b, class = aim(rng.IntN(3), tex, rawLen, 3+rng.IntN(combinedDataOff-3)), "raw<38"
+	case k < 34:
+		b, class = aim(3, tex, rawLen, []int{36, 37}[rng.IntN(2)]), "raw<38,with-id"
+	case k < 48: // raw encoding of the prefix length and a little more
+		want := []int{combinedDataOff, combinedDataOff + 1, combinedDataOff + 2, combinedDataOff + 3 + rng.IntN(50)}[rng.IntN(4)]
+		b, class = aim(rng.IntN(4), tex, rawLen, want), "raw>=38"
+	case k < 62: // zstd frame shorter than the combined prefix (incompressible content)
+		b, class = aim(rng.IntN(3), random, zstdLen, 16+rng.IntN(combinedDataOff-16)), "zstd<38"
+	case k < 74: // zstd frame of the prefix length and a little more
+		want := []int{combinedDataOff, combinedDataOff + 1, combinedDataOff + 2, combinedDataOff + 3 + rng.IntN(40)}[rng.IntN(4)]
+		b, class = aim(rng.IntN(4), random, zstdLen, want), "zstd>=38"
+	default: // long raw form, tiny zstd frame
+		n := []int{1 + rng.IntN(200), 200 + rng.IntN(5000), vf10NPFBL - 60 + rng.IntN(120), 2*vf10NPFBL - 60 + rng.IntN(120), 60000 + rng.IntN(60000)}[rng.IntN(5)]
+		kind := 1 + rng.IntN(2)
+		if n < 100 && rng.IntN(2) == 0 {
+			kind = 0
+		}
+		pl := zeros(n)
+		if rng.IntN(2) == 0 { // one repeated byte
+			v := byte(1 + rng.IntN(255))
+			for i := range pl {
+				pl[i] = v
+			}
+		}
+		b, class = vf10SmallObj(addr, kind, pl), "raw-long,zstd-tiny"
+	}
+	if len(b) == 0 { // no object encodes to nothing in practice; not stored
+		b = vf10SmallObj(addr, 0, random(1))
+	}
+	return b, class
+}
+
+// genSmall adds the small part of the universe (own random stream).
+func (c *vf10Case) genSmall(n int) {
+	if c.srng == nil {
+		return
+	}
+	rng := c.srng
+	cnr := verifkit.RandCID(rng)
+	for i := 0; i < n; i++ {
+		it := &vf10Item{small: true}
+		if rng.IntN(3) == 0 {
+			cnr = verifkit.RandCID(rng)
+		}
+		it.addr = oid.NewAddress(cnr, verifkit.RandOID(rng))
+		for v := 0; v < 2; v++ {
+			for try := 0; ; try++ {
+				b, class := vf10BuildSmall(rng, it.addr)
+				if v == 1 && bytes.Equal(b, it.variants[0]) && try < 20 {
+					continue
+				}
+				it.variants[v] = b
+				var o object.Object
+				if err := o.Unmarshal(b); err == nil {
+					it.hdrLen[v] = len(o.CutPayload().Marshal())
+				}
+				c.r.Seen("small_object_classes", class)
+				break
+			}
+		}
+		c.items = append(c.items, it)
+		c.small = append(c.small, it)
 		c.byAdr[it.addr] = it
 	}
 }
@@ -478,6 +612,12 @@ func (c *vf10Case) verify(addr oid.Address, full bool) {
 	it := c.byAdr[addr]
 	fs := c.fs
 	desc := map[string]any{"case": c.idx, "cfg": c.cfg, "addr": addr.String(), "step": len(c.steps)}
+	// The way the streams are drained (chunk sizes, buffer length) is drawn from a stream of
+	// its own that depends on the case, the step and the address only: how many addresses
+	// are verified after a step depends on which concurrent puts came to share a file
+	// (scheduling), and that must not shift the stream the history is drawn from.
+	ab := addr.Object()
+	vr := rand.New(rand.NewPCG(c.vseed^uint64(len(c.steps)), binary.LittleEndian.Uint64(ab[:8])))
 	outcome := "absent"
 	if present {
 		outcome = "present"
@@ -573,7 +713,7 @@ func (c *vf10Case) verify(addr oid.Address, full bool) {
 		if got := o.CutPayload().Marshal(); !bytes.Equal(got, wantHdr) {
 			c.violation("GetStream", "wrong-header", addr, vf10Diff(got, wantHdr))
 		}
-		pl, resumed, err := vf10ReadAll(c.rng, rd)
+		pl, resumed, err := vf10ReadAll(vr, rd)
 		if err != nil {
 			c.violation("GetStream", "stream-error", addr, err.Error())
 		} else if resumed && vf10Shape(pl, wantObj.Payload()) == "truncated" {
@@ -583,8 +723,8 @@ func (c *vf10Case) verify(addr oid.Address, full bool) {
 		}
 	})
 	bufLen := 2 * vf10NPFBL
-	if c.rng.IntN(3) == 0 {
-		bufLen += c.rng.IntN(3 * vf10NPFBL)
+	if vr.IntN(3) == 0 {
+		bufLen += vr.IntN(3 * vf10NPFBL)
 	}
 	api("ReadObject", func() {
 		buf := make([]byte, bufLen)
@@ -609,7 +749,7 @@ func (c *vf10Case) verify(addr oid.Address, full bool) {
 			c.violation("ReadObject", "bad-n", addr, fmt.Sprintf("n=%d with buffer of %d", n, len(buf)))
 			return
 		}
-		rest, resumed, err := vf10ReadAll(c.rng, rd)
+		rest, resumed, err := vf10ReadAll(vr, rd)
 		if err != nil {
 			c.violation("ReadObject", "stream-error", addr, err.Error())
 			return
@@ -720,9 +860,17 @@ func (c *vf10Case) chooseBytes(it *vf10Item) []byte {
 	return it.variants[c.rng.IntN(2)]
 }
 
+// randItem draws an address of the universe (mostly from c.bias while that is set).
+func (c *vf10Case) randItem() *vf10Item {
+	if len(c.bias) > 0 && c.rng.IntN(5) != 0 {
+		return c.bias[c.rng.IntN(len(c.bias))]
+	}
+	return c.items[c.rng.IntN(len(c.items))]
+}
+
 func (c *vf10Case) pick(wantPresent, strict bool) *vf10Item {
 	for range 40 {
-		it := c.items[c.rng.IntN(len(c.items))]
+		it := c.randItem()
 		if _, ok := c.model[it.addr]; ok == wantPresent {
 			return it
 		}
@@ -730,7 +878,7 @@ func (c *vf10Case) pick(wantPresent, strict bool) *vf10Item {
 	if strict {
 		return nil
 	}
-	return c.items[c.rng.IntN(len(c.items))]
+	return c.randItem()
 }
 
 func (c *vf10Case) log(op string, its []*vf10Item, lens []int, note string) {
@@ -745,9 +893,19 @@ func (c *vf10Case) afterWrite(op string, touched []*vf10Item) {
 	for _, it := range touched {
 		c.verify(it.addr, true)
 		if b, ok := c.model[it.addr]; ok {
-			f := c.format(it.addr)
+			f, dl := c.formatLen(it.addr)
 			c.r.Seen("formats_on_disk", f)
-			c.r.Distinct(fmt.Sprintf("%s|%s|%s|%s", c.cfg, op, f, vf10LenClass(len(b))))
+			c.r.Seen("on_disk_format_and_length_class", f+":"+vf10LenClass(dl))
+			if dl < combinedDataOff+2 { // evidence only
+				c.r.Seen("on_disk_lengths_up_to_prefix_length_"+f, fmt.Sprint(dl))
+			}
+			if dl < combinedDataOff {
+				c.r.Count("stored_shorter_than_prefix_on_disk_"+f, 1)
+				if len(b) >= vf10NPFBL {
+					c.r.Count("stored_shorter_than_prefix_on_disk_but_longer_than_buffer_raw", 1)
+				}
+			}
+			c.r.Distinct(fmt.Sprintf("%s|%s|%s|%s|disk%s", c.cfg, op, f, vf10LenClass(len(b)), vf10LenClass(dl)))
 		}
 	}
 	for range 3 {
@@ -789,7 +947,7 @@ func (c *vf10Case) distinctItems(k int, absentBias bool) []*vf10Item {
 		if absentBias {
 			it = c.pick(c.rng.IntN(5) == 0, false)
 		} else {
-			it = c.items[c.rng.IntN(len(c.items))]
+			it = c.randItem()
 		}
 		if !seen[it] {
 			seen[it] = true
@@ -928,14 +1086,35 @@ func (c *vf10Case) opDelete() {
 var vf10Enc, _ = zstd.NewWriter(nil)
 
 // opSeedZstd plants a zstd-compressed single file (what older nodes wrote) for an absent address.
-func (c *vf10Case) opSeedZstd() {
+func (c *vf10Case) opSeedZstd() { c.seedFile(true) }
+
+// opSeedPlain plants an uncompressed single file (what the generic writer, or the linux
+// writer with combined files switched off, wrote before the configuration was changed).
+func (c *vf10Case) opSeedPlain() { c.seedFile(false) }
+
+func (c *vf10Case) seedFile(compress bool) {
 	it := c.pick(false, true)
 	if it == nil {
 		return
 	}
 	data := it.variants[c.rng.IntN(2)]
-	comp := vf10Enc.EncodeAll(data, nil)
 	p := c.fs.treePath(it.addr)
+	if !compress {
+		c.log("seed-plain", []*vf10Item{it}, []int{len(data)}, "")
+		if err := os.MkdirAll(filepath.Dir(p), 0o700); err != nil {
+			c.r.Inconclusive("seed mkdir: " + err.Error())
+			return
+		}
+		if err := os.WriteFile(p, data, 0o600); err != nil {
+			c.r.Inconclusive("seed write: " + err.Error())
+			return
+		}
+		c.model[it.addr] = data
+		c.r.Count("seeded_plain_files", 1)
+		c.afterWrite("seed-plain", []*vf10Item{it})
+		return
+	}
+	comp := vf10Enc.EncodeAll(data, nil)
 	c.log("seed-zstd", []*vf10Item{it}, []int{len(data)}, fmt.Sprintf("compressed=%d", len(comp)))
 	if err := os.MkdirAll(filepath.Dir(p), 0o700); err != nil {
 		c.r.Inconclusive("seed mkdir: " + err.Error())
@@ -1296,14 +1475,49 @@ func (c *vf10Case) opAligned() {
 	c.verifyIterations()
 }
 
+// opSmall runs n operations of the ordinary kinds whose addresses are mostly taken from the
+// small part of the universe (own random stream), so that files and combined members
+// shorter than the combined prefix are written in every on-disk format, share combined
+// files with each other and with ordinary objects, lose members and are put again.
+func (c *vf10Case) opSmall(n int) {
+	if c.srng == nil || len(c.small) == 0 {
+		return
+	}
+	saved := c.rng
+	c.rng, c.bias = c.srng, c.small
+	defer func() { c.rng, c.bias = saved, nil }()
+	for j := 0; j < n && !c.bad; j++ {
+		c.r.Count("small_burst_ops", 1)
+		switch k := c.rng.IntN(100); {
+		case k < 20:
+			c.opSeedZstd()
+		case k < 30:
+			c.opSeedPlain()
+		case k < 45:
+			c.opSeedCombined()
+		case k < 58:
+			c.opPut()
+		case k < 66:
+			c.opPutConcurrent()
+		case k < 80:
+			c.opPutBatch()
+		default:
+			c.opDelete()
+		}
+	}
+}
+
 func (c *vf10Case) run(nOps int) {
 	c.open()
 	defer func() { _ = c.fs.Close() }()
+	c.vseed = c.rng.Uint64()
 	c.genUniverse()
+	c.genSmall(8)
 	c.sweep() // empty store: everything not-found, iterations empty
 	if !c.bad {
 		c.opAligned()
 	}
+	c.opSmall(6)
 	for i := 0; i < nOps && !c.bad; i++ {
 		switch k := c.rng.IntN(100); {
 		case k < 22:
@@ -1326,6 +1540,9 @@ func (c *vf10Case) run(nOps int) {
 		}
 		if i%16 == 11 && !c.bad {
 			c.opAligned() // while other objects are stored
+		}
+		if i%16 == 3 {
+			c.opSmall(4) // while other objects are stored
 		}
 		c.r.Max("max_stored_at_once", int64(len(c.model)))
 	}
@@ -1369,7 +1586,7 @@ func vf10Configs(r *verifkit.Run) []vf10Cfg {
 func TestVerif_C10(t *testing.T) {
 	r := verifkit.Start(t, "C10", "exploration")
 	defer r.Finish()
-	r.SetRule("one case = one FSTree configuration (depth 0-4 x combined count limit 1/2/8/128 x size limit x threshold x linux/generic writer) with a seeded sequence of put / concurrent puts / PutBatch / delete / seeded zstd file / seeded combined file over 20 addresses (two byte variants each, lengths aimed at 38, NonPayloadFieldsBufferLength, twice that, the combined threshold and size limit, up to 256KiB), plus, at the start and every 16th step, a border-aligned combined file (hand-built or PutBatch of equal-length members; member lengths computed so that later prefixes start 0..39+ bytes before multiples of the 20480/40960/4096/32768-byte read window) whose members are read and then deleted one by one; after every step all read APIs are compared with a Go map; distinct = (configuration, op kind, on-disk format of the touched address, length class)")
+	r.SetRule("one case = one FSTree configuration (depth 0-4 x combined count limit 1/2/8/128 x size limit x threshold x linux/generic writer) with a seeded sequence of put / concurrent puts / PutBatch / delete / seeded zstd file / seeded combined file over 20 addresses (two byte variants each, lengths aimed at 38, NonPayloadFieldsBufferLength, twice that, the combined threshold and size limit, up to 256KiB), plus, at the start and every 16th step, a border-aligned combined file (hand-built or PutBatch of equal-length members; member lengths computed so that later prefixes start 0..39+ bytes before multiples of the 20480/40960/4096/32768-byte read window) whose members are read and then deleted one by one, and bursts of the same operations (plus hand-written uncompressed single files) over 8 more addresses holding small objects without ID whose raw or zstd length is aimed at 3..37, 38, 39 and a little more, or whose raw form is long while the zstd frame is shorter than the 38-byte combined prefix; after every step all read APIs are compared with a Go map; distinct = (configuration, op kind, on-disk format of the touched address, length class of the bytes, length class of what they occupy on disk)")
 	r.Assume("an address is never re-put with different bytes while it is stored (content addressing); it may be re-put with other bytes after deletion")
 	all := vf10Configs(r)
 	nCfg := r.Pick(30, len(all))
@@ -1385,7 +1602,7 @@ func TestVerif_C10(t *testing.T) {
 		if rng.IntN(3) == 0 {
 			cfg.IntervalMs = 1 + rng.IntN(3)
 		}
-		c := &vf10Case{r: r, t: t, idx: i, cfg: cfg, rng: rng, arng: r.Rand("aligned", i), model: map[oid.Address][]byte{}, byAdr: map[oid.Address]*vf10Item{}}
+		c := &vf10Case{r: r, t: t, idx: i, cfg: cfg, rng: rng, arng: r.Rand("aligned", i), srng: r.Rand("small", i), model: map[oid.Address][]byte{}, byAdr: map[oid.Address]*vf10Item{}}
 		r.Guard(map[string]any{"case": i, "cfg": cfg}, func() { c.run(nOps) })
 		r.Eval(1)
 		r.Count("steps_executed", len(c.steps))
@@ -1398,6 +1615,11 @@ func TestVerif_C10(t *testing.T) {
 	}
 	if r.Counter("survivor_reads_after_member_delete") == 0 || r.Counter("seeded_zstd_files") == 0 || r.Counter("seeded_combined_files") == 0 {
 		r.Inconclusive("workload never produced a shared combined file with a deleted member, or no compressed/combined seeded files")
+	}
+	for _, f := range []string{"plain", "zstd", "combined", "combined+zstd"} {
+		if r.Violations() == 0 && r.Counter("stored_shorter_than_prefix_on_disk_"+f) == 0 {
+			r.Inconclusive("workload never stored an object that occupies fewer bytes on disk than the combined prefix in format " + f)
+		}
 	}
 	if r.Violations() == 0 && (r.Counter("aligned_prefixes_straddling_a_border") == 0 || r.Counter("aligned_files_planted") == 0) {
 		r.Inconclusive("workload never produced a combined file with a member prefix straddling a read-window border")
